@@ -308,6 +308,19 @@ def r5_watch_paths(r, facts):
     eb = ExprBuilder(f, multi='phi')
     adds = [(l, t) for l, t in f.calls() if (t.get('callee') or '') == 'libc::inotify_add_watch']
     ins = [(l, t) for l, t in f.calls() if (t.get('callee') or '').endswith('::insert') and 'HashMap' in (t.get('callee') or '')]
+    # the same update through the entry API: `match watching.entry(wd) { Occupied(e) => e.insert(path), Vacant(e) => e.insert(path) }`
+    # — an insert keyed by the argument of `entry` when every path from it to a return stores a value through the entry
+    entry_form = False
+    if not ins:
+        ents = [(l, t) for l, t in f.calls() if (t.get('callee') or '').endswith('::entry') and 'HashMap' in (t.get('callee') or '') and not f.blocks[l[0]]['cleanup']]
+        eins = [(l, t) for l, t in f.calls() if re.search(r'(OccupiedEntry|VacantEntry)<.*>::insert(_entry)?$|(OccupiedEntry|VacantEntry)::<.*>::insert(_entry)?$', t.get('callee') or '') and not f.blocks[l[0]]['cleanup']]
+        if len(ents) == 1 and eins and ents[0][1].get('target') is not None:
+            vals = {repr(eb.operand(t['args'][1])) for l, t in eins}
+            leak = f.forward_paths_hit([Loc(ents[0][1]['target'], 0)], f.returns(), blockers=[l for l, _ in eins])
+            if len(vals) == 1 and leak is None:
+                el, et = ents[0]
+                ins = [(el, {'args': [et['args'][0], et['args'][1], eins[0][1]['args'][1]]})]
+                entry_form = True
     if r.require(len(adds) == 1 and len(ins) == 1, 'watch/sites', 'expected one inotify_add_watch and one watching.insert in inotify::watch (found %d/%d)' % (len(adds), len(ins)), f.where()):
         al, at = adds[0]
         il, it = ins[0]
@@ -357,6 +370,8 @@ def r5_watch_paths(r, facts):
                 continue
             n_w += 1
             meth = re.sub(r'<.*?>', '', c).rsplit('::', 1)[-1]
+            if meth == 'entry' and entry_form and h.path == 'inotify::watch':
+                continue
             r.require(meth not in MUTATORS, 'watching/%s' % meth, 'the wd -> path table is edited by `%s` in %s: entries may only be added for a watch the kernel accepted and removed for the wd of an IN_IGNORED record (a live watch descriptor would lose, or get another, path)' % (meth, h.path), h.where(l))
             if meth == 'insert':
                 r.require(h.path in ('inotify::watch',), 'watching/insert-site', 'an entry is added to the wd -> path table outside inotify::watch (%s)' % h.path, h.where(l))
